@@ -112,6 +112,10 @@ def run(ctx):
         nrows += 1
         if ctx.quick and nrows % 2:
             continue
+        # the model's name B stands for any mnemonic: also ones longer than the field width
+        long_b = rng.choice(['B', 'B', 'LONGNAME_B9', 'B2345678901234567890123456789'])
+        names, req, expected = ([long_b if n == 'B' else n for n in lst] for lst in (names, req, expected))
+        UNITS[long_b] = UNITS['B']
         nfr = rng.choice([1, 2, 5])
         method = rng.choice(['first', 'mean', 'median', 'min', 'max'])
         width = rng.choice([2, 8, 16, 24])
